@@ -704,7 +704,7 @@ impl Storage for SimStorage {
             if w.interact() {
                 Ok(())
             } else {
-                let fail = w.storage.next_op_fails();
+                let fail = w.storage.next_commit_fails();
                 if !fail {
                     w.storage.apply_commit();
                 }
